@@ -322,3 +322,158 @@ def check_regex_table_ownership(ctx, rid):
                 n += 1
                 ctx.ob(rid, f'{f.short}:external-store', _loc(f, x), 'no code outside Lexer writes _SQL_REGEX', False, f'`{src(x)}` in {f.short}')
     ctx.need(n >= 2, 'Lexer no longer stores self._SQL_REGEX in clear()/set_SQL_REGEX')
+
+
+def lexer_state(o):
+    from . import miniev as ME
+    return ([(m.key() if isinstance(m, ME.RxBound) else repr(m), repr(t)) for m, t in (getattr(o, '_SQL_REGEX', None) or [])],
+            [id(d) if isinstance(d, dict) else repr(d) for d in (getattr(o, '_keywords', None) or [])])
+
+
+def default_lexer(ctx):
+    """A record standing for a Lexer instance after default_initialization(), obtained by interpreting that method (and
+    clear / set_SQL_REGEX / add_keywords) -- or None with the reason when the source is not evaluable."""
+    from . import miniev as ME
+
+    def build():
+        L = ctx.repo.classes.get(LEXER)
+        o = ME.Obj(_cls=L)
+        ev = ME.Evaluator(ctx, L.mod, L)
+        ev.effects = True
+        try:
+            ev._obj_method(o, 'default_initialization')()
+        except (ME.Unsupported, ME.Unknown, ME.Crash) as e:
+            return None, str(e)
+        return o, ''
+    return ctx.shared('default_lexer', build)
+
+
+def check_reconfiguration(ctx, rid):
+    """`lexer reconfiguration followed by default_initialization()` must leave the lexer exactly as a fresh default one: the
+    configuration methods are interpreted on a Lexer record in every order of up to two reconfiguration steps, then
+    default_initialization(), and the rule table and the keyword dictionaries are compared with those of a fresh instance."""
+    from . import miniev as ME
+    from .fold import TT
+    import itertools
+    L = ctx.repo.classes.get(LEXER)
+    f = ctx.repo.func(LEXER + '.default_initialization')
+    loc = f'{f.mod.relpath}:{f.node.lineno}'
+    base, why = default_lexer(ctx)
+    if base is None:
+        ctx.ob(rid, 'reconfiguration:simulation', loc, 'the lexer configuration methods are evaluable', None, why)
+        return
+    s0 = lexer_state(base)
+    ctx.need(len(s0[0]) >= 20 and len(s0[1]) >= 2, f'default lexer has {len(s0[0])} rules / {len(s0[1])} dictionaries after interpretation')
+    steps = {'add_keywords': lambda: ({'ZZTOP': TT(('Keyword',))},), 'clear': lambda: (), 'set_SQL_REGEX': lambda: ([('zz', TT(('Name',)))],)}
+    bad = []
+    n = 0
+    for k in (1, 2):
+        for seq in itertools.product(sorted(steps), repeat=k):
+            o = ME.Obj(_cls=L)
+            ev = ME.Evaluator(ctx, L.mod, L)
+            ev.effects = True
+            try:
+                ev._obj_method(o, 'default_initialization')()
+                for name in seq:
+                    ev._obj_method(o, name)(*steps[name]())
+                ev._obj_method(o, 'default_initialization')()
+            except (ME.Unsupported, ME.Unknown) as e:
+                ctx.ob(rid, 'reconfiguration:simulation', loc, 'the lexer configuration methods are evaluable', None, f'{seq}: {e}')
+                return
+            except ME.Crash as e:
+                bad.append(f'{" -> ".join(seq)} -> default_initialization(): {e}')
+                continue
+            n += 1
+            s1 = lexer_state(o)
+            if s1 != s0:
+                what = []
+                if s1[0] != s0[0]:
+                    what.append(f'{len(s1[0])} rules instead of {len(s0[0])}' if len(s1[0]) != len(s0[0]) else 'rule table differs')
+                if s1[1] != s0[1]:
+                    what.append(f'{len(s1[1])} keyword dictionaries instead of {len(s0[1])}' if len(s1[1]) != len(s0[1]) else 'keyword dictionaries differ')
+                bad.append(f'{" -> ".join(seq)} -> default_initialization(): {", ".join(what)}')
+    ctx.ob(rid, 'reconfiguration:simulation', loc,
+           f'after any reconfiguration ({n} sequences of add_keywords / clear / set_SQL_REGEX) default_initialization() restores exactly the default rule table and dictionaries',
+           not bad, f'{len(bad)} sequence(s) leave a different lexer, e.g. {bad[:2]}: every later parse/split/format in the process depends on that earlier call')
+
+
+SCAN_ATOMS = ['a', 'desc', 'select', 'go', '1', ' ', '\n', '\t', '\xa0', ' ', '.', '=', '<', '(', ')', ',', ';', "'", '"', '`', '*', '/', '-', '+',
+              '$', '#', ':', '::', '--', '/*', '*/', '**/', '\\', 'é', '\x00', '[', ']', '%s', '?', '@', '{']
+
+
+def scan_texts(tier='quick'):
+    import itertools
+    texts = [''] + list(SCAN_ATOMS)
+    texts += [a + b for a, b in itertools.product(SCAN_ATOMS, repeat=2)]
+    # a few longer shapes: regions, multi-word keywords, names after a period, placeholders, dollar quoting
+    texts += ["'a''b' c", '"a""b".c', '/* c **/ x', '/***/x', '/* a */ /*+ h */', '-- c\nx', '--+ h\nx', '# c\nx', 'order  by', 'order\nby x', 'end\tif;',
+              'union all', 't.desc', 't.join x', 't . key', 'a.b.c', 'x::int', 'a := 1', '$a$ x $a$', '$$x$$;', '$1', ':name', '%(n)s', '1.5e3', '0xFF',
+              'select(1)', 'f (x)', 'a=b', 'a==b', 'a<=b', 'a!=', 'x=', '= x', 'a =~ b', 'case when', 'left outer join', 'go 2', 'GO\n', 'create or replace',
+              "at time zone 'utc'", 'x\xa0y', 'x　y', ';\xa0', 'é.ü', '[a b]', 'a[1]', 'a -- c', 'a #c', 'a # c', '1--2', "'unterminated", '"unterminated',
+              '/* unterminated', 'a\r\nb', '﻿select']
+    if tier == 'thorough':
+        core = ['a', 'desc', '1', ' ', '\n', '\xa0', '.', '=', '(', "'", '*', '/', '-', '$', '--', '/*', '*/']
+        texts += [a + b + c for a, b, c in itertools.product(core, repeat=3)]
+    seen, out = set(), []
+    for t in texts:
+        if t not in seen:
+            seen.add(t)
+            out.append(t)
+    return out
+
+
+def check_scan_semantics(ctx, rid, table_agreement=True):
+    """The rule modules reason about the lexer through its tables: `first row of SQL_REGEX that matches at the position wins, a
+    PROCESS_AS_KEYWORD match is typed by the first dictionary that lists its upper-cased text, otherwise one Error character`.
+    Whether Lexer.get_tokens really does that -- whatever fast paths, reduced tables or look-aheads it has grown -- is decided
+    here by interpreting get_tokens (with the rule table and dictionaries default_initialization() installs, also interpreted)
+    on ~1800 short texts and comparing token by token with that table model.  A crash counts: tokenizing never fails."""
+    from . import miniev as ME
+    from .tables import get_tables
+    T = get_tables(ctx)
+    f = ctx.repo.func(LEXER + '.get_tokens')
+    L = ctx.repo.classes.get(LEXER)
+    loc = f'{f.mod.relpath}:{f.node.lineno}'
+    lx, why = default_lexer(ctx)
+    if lx is None:
+        ctx.ob(rid, 'scan:simulation', loc, 'the lexer is evaluable', None, why)
+        return
+    texts = scan_texts(ctx.tier)
+    bad = {}
+    n = 0
+    for text in texts:
+        ev = ME.Evaluator(ctx, f.mod, L)
+        ev.effects = True
+        out = []
+        ev.on_yield = out.append
+        env = {f.params[0]: lx, f.params[1]: text}
+        for p_, d_ in zip(f.params[len(f.params) - len(f.node.args.defaults):], f.node.args.defaults):
+            env[p_] = ev.ev(d_, {})
+        try:
+            ME.run_function(ev, f.node, env, max_steps=20000)
+        except (ME.Unsupported, ME.Unknown) as e:
+            ctx.ob(rid, 'scan:simulation', loc, 'Lexer.get_tokens is evaluable on short texts', None, f'{text!r}: {e}')
+            return
+        except ME.Crash as e:
+            bad.setdefault('tokenizing fails', []).append(f'{text!r}: {e}')
+            continue
+        n += 1
+        want = [(tt, v) for tt, v, _ in T.lex_all(text)]
+        got = [(a, b) for a, b in out] if all(isinstance(x, tuple) and len(x) == 2 for x in out) else out
+        if got != want:
+            i = next((k for k, (x, y) in enumerate(zip(got, want)) if x != y), min(len(got), len(want)))
+            g_, w_ = (got[i] if i < len(got) else None), (want[i] if i < len(want) else None)
+            kind = 'the tokens do not add up to the text' if ''.join(v for _, v in got if isinstance(v, str)) != text else 'a token differs from what the rule table gives'
+            bad.setdefault(kind, []).append(f'{text!r}: token #{i} is {g_!r}, the table gives {w_!r}')
+    ctx.info['scan_semantics_texts'] = n
+    if not bad:
+        ctx.ob(rid, 'scan:simulation', loc, f'Lexer.get_tokens applies the rule table as the table model says: first matching row wins, keywords by dictionary order, '
+               f'Error character otherwise ({n} short texts interpreted)', True)
+    for kind, items in sorted(bad.items()):
+        if kind.startswith('a token differs') and not table_agreement:
+            # lossless all the same: not this property's business (the properties that read the tables include the agreement)
+            ctx.note(f'{rid}: Lexer.get_tokens departs from the rule-table model on {len(items)} short text(s), e.g. {items[0]} (the token values still add up)')
+            ctx.ob(rid, 'scan:simulation', loc, f'Lexer.get_tokens is total and lossless on {n} short texts', True)
+            continue
+        ctx.ob(rid, f'scan:{kind}', loc, f'Lexer.get_tokens agrees with the table model on {len(texts)} short texts', False,
+               f'{len(items)} text(s): {kind}, e.g. {items[:3]}')
